@@ -458,7 +458,7 @@ class C10(Prop):
         'the iteration after it must be exact',
         'Linux AF_UNIX socketpair semantics for the kernel oracle',
     )
-    budget = {'quick': (1200, 4), 'thorough': (6000, 16)}
+    budget = {'quick': (1200, 4), 'thorough': (20000, 16)}
 
     def setup(self):
         driver.quiet_process()
